@@ -181,8 +181,9 @@ def _local_record_list(f, recv) -> bool:
     return iterated
 
 
-def _r1_function(ctx, rid, f, roles=None, seen=None):
-    roles = roles or Roles(ctx, f)
+def _r1_function(ctx, rid, f_orig, proles=None, depth=0, seen=None):
+    f = R.view(ctx, f_orig)              # statement-level helpers spliced in; obligations are reported under f_orig
+    roles = Roles(ctx, f, proles, depth)
     seen = seen if seen is not None else set()
     cfg = ctx.cfg(f)
     n = 0
@@ -197,7 +198,7 @@ def _r1_function(ctx, rid, f, roles=None, seen=None):
                 key = (g.qual, tuple(sorted((k, str(v)) for k, v in proles.items())))
                 if key not in seen and (g.module.rel, g.qualname) not in R1_FUNCS:
                     seen.add(key)
-                    n += _r1_function(ctx, rid, g, Roles(ctx, g, proles, roles.depth + 1), seen)
+                    n += _r1_function(ctx, rid, g, proles, roles.depth + 1, seen)
         # ---- pair sinks: subscripts with two indices -------------------------------------------------
         if isinstance(node, ast.Subscript) and isinstance(node.slice, ast.Tuple) and len(node.slice.elts) == 2:
             base, flipped = _strip_T(node.value)
@@ -419,12 +420,39 @@ def _twin(reg: Registry, key: str):
     return None
 
 
+def _def_source(ctx, reg: Registry, key: str):
+    """Registry.def_source, also when the def string is shared: `from <other registry module> import <name>` (the torch/jax tables
+    may reuse the base table's text; the definition is then the imported module-level string)."""
+    ds = reg.def_source(key)
+    if ds is not None:
+        return ds
+    d = (reg.entries.get(key) or {}).get("def")
+    mod, name = reg.module, d.id if isinstance(d, ast.Name) else None
+    for _ in range(4):
+        if name is None or name not in mod.imports:
+            return None
+        src, sym = mod.imports[name]
+        tm = ctx.repo.modules.get(src)
+        if tm is None or sym in (None, "*"):
+            return None
+        sts = tm.assigns.get(sym)
+        if sts and isinstance(sts[-1], ast.Assign) and isinstance(sts[-1].value, ast.Constant) and isinstance(sts[-1].value.value, str):
+            text = sts[-1].value.value
+            try:
+                ast.parse(text)
+            except SyntaxError:
+                return text, sts[-1], "foreign"
+            return text, sts[-1], "pydef"
+        mod, name = tm, sym
+    return None
+
+
 def r2_coupling_helpers(ctx, rid):
     base = Registry(ctx, "base")
     bmod = base.module
     # ---- broadcast helpers (defined in the base registry only; torch/jax inherit them) -------------------------
     for key, want_axis, side in (("broadcast_pre", 1, "source"), ("broadcast_post", 0, "target")):
-        ds = base.def_source(key)
+        ds = _def_source(ctx, base, key)
         if ds is None or ds[2] != "pydef":
             raise AnalysisError(f"{rid}: base_funcs['{key}'] has no python def string")
         text, st, _ = ds
@@ -458,7 +486,7 @@ def r2_coupling_helpers(ctx, rid):
             continue
         if "wsum" not in reg.entries:
             continue
-        ds = reg.def_source("wsum")
+        ds = _def_source(ctx, reg, "wsum")
         if ds is None or ds[2] != "pydef":
             raise AnalysisError(f"{rid}: {reg.name}['wsum'] has no python def string")
         forms = [("def string", parse_pydef(ds[0]), ds[1])]
@@ -501,17 +529,31 @@ def r2_coupling_helpers(ctx, rid):
         else:
             raise AnalysisError(f"{rid}: {reg.name}['matvec'] binds to `{cname}` / {lib} (unrecognised)")
     # ---- use sites --------------------------------------------------------------------------------------------------
-    f = ctx.repo.get_func(IR, "NetworkGraph._generate_edge_equation")
-    cfg = ctx.cfg(f)
+    f0 = ctx.repo.get_func(IR, "NetworkGraph._generate_edge_equation")
+    # the emission sites live in the edge-equation generator or in one of the private helpers it was split into (call-graph closure)
+    members, todo = [f0], [(f0, 0)]
+    while todo:
+        fx, dpt = todo.pop()
+        if dpt >= 3:
+            continue
+        for c in walk_shallow(fx.node):
+            if isinstance(c, ast.Call):
+                g = R.private_helper(ctx, fx, c)
+                if g is not None and all(g is not m for m in members):
+                    members.append(g)
+                    todo.append((g, dpt + 1))
     uses = []
-    for n in walk_shallow(f.node):
-        if isinstance(n, ast.JoinedStr) and not isinstance(parent(n), ast.FormattedValue):
-            tpl = fstring_template(n) or ""
-            m = re.match(r"\s*(broadcast_pre|broadcast_post)\(", tpl)
-            if m:
-                uses.append((m.group(1), n, stmt_of(cfg, n)))
+    for fx in members:
+        cx = ctx.cfg(fx)
+        for n in walk_shallow(fx.node):
+            if isinstance(n, ast.JoinedStr) and not isinstance(parent(n), ast.FormattedValue):
+                tpl = fstring_template(n) or ""
+                m = re.match(r"\s*(broadcast_pre|broadcast_post)\(", tpl)
+                if m:
+                    uses.append((m.group(1), n, stmt_of(cx, n), fx, cx))
     if len(uses) < 2:
-        raise AnalysisError(f"{rid}: broadcast_pre/broadcast_post emission sites not found in {f.qual}")
+        raise AnalysisError(f"{rid}: broadcast_pre/broadcast_post emission sites not found in {f0.qual} and its private helpers")
+
     def role_literal(c, stmt, expr=None):
         """('source'|'target', guard text) established for `stmt` by a dominating test of <x>['role'] / <x>.get('role') against a literal"""
         for t, pol in R.path_literals(c, stmt, expr):
@@ -527,7 +569,7 @@ def r2_coupling_helpers(ctx, rid):
                     return (y.value if holds else {"source": "target", "target": "source"}[y.value]), ("" if pol else "not ") + norm(t)
         return None
 
-    for helper, n, st in uses:
+    for helper, n, st, f, cfg in uses:
         rl = role_literal(cfg, st, n)
         if rl is None:
             raise AnalysisError(f"{rid}: `{norm(st)}` is not under a test of info['role'] (unrecognised form)")
@@ -656,7 +698,7 @@ def _value_alternatives(ctx, rid, f, name_node, depth=0):
 
 def r3_population_params(ctx, rid):
     cls = ctx.repo.get_class(POP, "PopulationTemplate")
-    f = get_method(ctx, cls, "apply")
+    f = R.view(ctx, get_method(ctx, cls, "apply"))       # helpers the expansion was split into are spliced in (same qualname)
     selfn = f.self_name
     cfg = ctx.cfg(f)
     # the store of the expanded value
